@@ -11,6 +11,7 @@
 From V Require Import Base.Bits Spec.C13 Model.Fp.
 From V Require Import Proofs.C13.Cmp Proofs.C13.Mul Proofs.C13.I2F Proofs.C13.F2I Proofs.C13.AddComm Proofs.C13.AddBound
                       Proofs.C13.AddRefute Proofs.C13.QBridge.
+From V Require Import Gen.Prims Model.StructArith Model.StructLogic Proofs.C13.Blocks.
 From Coq Require Import QArith.
 Open Scope Z_scope.
 
@@ -74,6 +75,37 @@ Proof. exact fpadd_w_gap_lemma. Qed.
 Theorem fpadd_comm : forall a b, word a -> word b -> sval a + sval b <> 0 -> fpadd a b = fpadd b a.
 Proof. exact fpadd_comm_lemma. Qed.
 
+(* ---- sub-block bridge (session 5): the word operators of Model/Fp.v ARE the structural block models of C07 / C08
+   (Model/StructArith.v, Model/StructLogic.v: the regenerated primitives wired as the constructors do), for every width and
+   every in-range value.  Side conditions: widths >= 0 (>= 1 for a shift-amount / comparator / clz operand width), operands
+   inside their wire widths, clz result width >= ceil(log2 aw).  Add is the block with the default carry-in (ci = None);
+   Sub is the primitive Sub_propagate (C07_sub); `sub_w w 0 a` is Neg; the shifter's stages run on the operand width wa and
+   the result is cut to wr (`trunc wr (shr_w wa ..)` is FPtoInt_SP's 56 -> 64 form, the second shr conjunct is wr = wa). *)
+Theorem C13_word_ops_are_C07_blocks :
+  (forall w a b, 0 <= w -> add_w w a b = m_Add w None a b) /\
+  (forall w a b, 0 <= w -> sub_w w a b = Sub_propagate w a b) /\
+  (forall w a, 0 <= w -> sub_w w 0 a = m_Neg w a) /\
+  (forall wa wb wr a n, 0 <= wa -> 1 <= wb -> 0 <= wr -> 0 <= a < 2 ^ wa -> 0 <= n < 2 ^ wb ->
+     trunc wr (shr_w wa a n) = m_ShiftRight ALogical wa wb wr a n) /\
+  (forall w wb a n, 0 <= w -> 1 <= wb -> 0 <= a < 2 ^ w -> 0 <= n < 2 ^ wb ->
+     shr_w w a n = m_ShiftRight ALogical w wb w a n) /\
+  (forall wa wb wr a n, 0 <= wa -> 1 <= wb -> 0 <= wr -> 0 <= a < 2 ^ wa -> 0 <= n < 2 ^ wb ->
+     shl_w wr a n = m_ShiftLeft wa wb wr a n) /\
+  (forall aw rw a, 1 <= aw -> Z.log2_up aw <= rw -> 0 <= a < 2 ^ aw ->
+     clz_w aw rw a = fst (m_CountLeadingZeros aw rw a)).
+Proof. exact word_ops_are_C07_blocks. Qed.
+
+(* the comparator (three 1-bit outputs gt, eq, lt; Fp.v keeps 1-bit wires as bool), Range, Bit, Mux2 and the 1+8+23 concatenation *)
+Theorem C13_word_ops_are_C08_blocks :
+  (forall w a b, 1 <= w -> 0 <= a < 2 ^ w -> 0 <= b < 2 ^ w ->
+     Comparator_m w a b = (b2z (fst (fst (cmp_w w a b))), b2z (snd (fst (cmp_w w a b))), b2z (snd (cmp_w w a b)))) /\
+  (forall hi lo a, 0 <= lo <= hi -> rng hi lo a = Range_m (hi - lo + 1) hi lo a) /\
+  (forall a i, 0 <= i -> b2z (Z.testbit a i) = Bit_m 1 i a) /\
+  (forall w sel s0 s1, 0 <= w -> trunc w (mux2 sel s0 s1) = Mux2_m w (b2z sel) s0 s1) /\
+  (forall s e m, 0 <= e < 2 ^ 8 -> 0 <= m < 2 ^ 23 ->
+     cat_sem s e m = ConcatenateMSBF_m 32 [(1, b2z s); (8, e); (23, m)]).
+Proof. exact word_ops_are_C08_blocks. Qed.
+
 (* ---- non-vacuity: concrete operands satisfy the hypotheses, and the conclusions are the expected bit patterns *)
 Example fpcmp_nonvacuous :   (* -2.25 < 1.5 ;  |-2.25| > |1.5| *)
   normal 3222274048 /\ normal 1069547520 /\ fpcmp false 3222274048 1069547520 = (false, false, true)
@@ -94,6 +126,21 @@ Example fpadd_nonvacuous :   (* 1.5 + -2.25 = -0.75 exactly (cancellation, sign 
   normal 1069547520 /\ normal 3222274048 /\ add_exact_normal 1069547520 3222274048 /\ fpadd 1069547520 3222274048 = 3208642560 /\
   normal 1400897536 /\ normal 1132462080 /\ add_exact_normal 1400897536 1132462080 /\ fpadd 1400897536 1132462080 = 1400897536.
 Proof. unfold normal, word, add_exact_normal, normal_range. vm_compute. intuition discriminate. Qed.
+
+Example word_ops_nonvacuous :   (* the instances of FPAdder_SP / InttoFP_SP / FPtoInt_SP / FPComparator_SP, on operands inside the widths *)
+  add_w 25 16777215 12582912 = 29360127 /\ m_Add 25 None 16777215 12582912 = 29360127 /\
+  sub_w 8 3 130 = 129 /\ Sub_propagate 8 3 130 = 129 /\ m_Neg 32 5 = 4294967291 /\ sub_w 32 0 5 = 4294967291 /\
+  shr_w 24 12582912 200 = 0 /\ m_ShiftRight ALogical 24 8 24 12582912 200 = 0 /\
+  shr_w 24 12582912 3 = 1572864 /\ m_ShiftRight ALogical 24 8 24 12582912 3 = 1572864 /\
+  trunc 64 (shr_w 56 (Z.shiftl 12582912 32) 9) = 105553116266496 /\ m_ShiftRight ALogical 56 8 64 (Z.shiftl 12582912 32) 9 = 105553116266496 /\
+  shl_w 25 5 22 = 20971520 /\ m_ShiftLeft 25 5 25 5 22 = 20971520 /\
+  shl_w 64 (Z.shiftl 12582912 32) 7 = 6917529027641081856 /\ m_ShiftLeft 56 8 64 (Z.shiftl 12582912 32) 7 = 6917529027641081856 /\
+  clz_w 25 5 5 = 22 /\ fst (m_CountLeadingZeros 25 5 5) = 22 /\ clz_w 32 5 0 = 0 /\ fst (m_CountLeadingZeros 32 5 0) = 0 /\
+  Z.log2_up 25 <= 5 /\ Z.log2_up 32 <= 5 /\
+  cmp_w 8 130 127 = (true, false, false) /\ Comparator_m 8 130 127 = (1, 0, 0) /\
+  rng 30 23 1069547520 = 127 /\ Range_m 8 30 23 1069547520 = 127 /\
+  cat_sem true 127 4194304 = 3217031168 /\ ConcatenateMSBF_m 32 [(1, 1); (8, 127); (23, 4194304)] = 3217031168.
+Proof. vm_compute. repeat split; try reflexivity; discriminate. Qed.
 
 (* ---- history: the two instances that /repo had before its repairs (explicitly the OLD widths, not the current circuit).
    They are what the check falls back to describing if the probe ever selects those widths again. *)
@@ -125,3 +172,5 @@ Print Assumptions fpadd_bound.
 Print Assumptions fpadd_w_bound.
 Print Assumptions fpadd_w_gap_bound.
 Print Assumptions fpadd_comm.
+Print Assumptions C13_word_ops_are_C07_blocks.
+Print Assumptions C13_word_ops_are_C08_blocks.
